@@ -7,6 +7,9 @@
 
 mod alpha;
 mod c01;
+mod c06;
+mod c10;
+mod c14;
 mod cat;
 mod conv;
 mod dev;
